@@ -74,23 +74,23 @@ def cfg(pid, tier):
                      Vols=S(0, 3), Reqs=S(4), TwoEntries=False)
             n_beh, emit = 6000, 40
     elif pid == "C06":
-        c.update(WellBehaved=True, AcctChoices=S((5, 1), (7, 2), (0, 3), (3, 2)), Reqs=S(2, 4), Vols=S(0, 1, 2, 4),
-                 TopUps=S(6))
+        c.update(WellBehaved=True, RGs=S("1", "2"), TwoEntries=True, AcctChoices=S((5, 1), (7, 2), (0, 3), (40, 1)),
+                 Reqs=S(2, 4), Vols=S(0, 2, 4), TopUps=S(6))
         if tier == "quick":
-            c.update(MaxSteps=5)
-            n_beh, emit = 200, 60
+            c.update(MaxSteps=4, TopUps=S())
+            n_beh, emit = 260, 300
         else:
-            c.update(MaxSteps=6)
-            n_beh, emit = 6000, 60
+            c.update(MaxSteps=5)
+            n_beh, emit = 6000, 2000
     elif pid == "C12":
-        c.update(Subs=S("1", "2"), BadRefs=True, MaxSess=2, Reqs=S(4), Vols=S(0, 3), TrigSets=S("none", "final"),
-                 TopUps=S(), AcctChoices=S((9, 1)))
+        c.update(Subs=S("1", "2"), BadRefs=True, MaxSess=2, Reqs=S(4), Vols=S(0, 3), TrigSets=S("none", "final", "partial"),
+                 TopUps=S(), AcctChoices=S((9, 1)), Pads=S(0, 3), Limit=6, Modes=S("on", "off"), CreateConts=S(0, 2))
         if tier == "quick":
             c.update(MaxSteps=4)
-            n_beh, emit = 220, 60
+            n_beh, emit = 300, 300
         else:
             c.update(MaxSteps=5)
-            n_beh, emit = 5000, 200
+            n_beh, emit = 6000, 3000
     elif pid in ("C02", "C03"):
         c.update(Subs=S("1", "2"), MaxSess=3, CreateConts=S(0, 2), Modes=S("on", "off"), Limit=6, Pads=S(0, 3),
                  Reqs=S(4), Vols=S(0, 2), TrigSets=S("none", "partial", "final"), TopUps=S(), Recharges=False,
